@@ -180,6 +180,19 @@ def run(tier, seed):
             if t is not None:
                 log.add("close", "chord.evaluate", base, b, {"what": "split " + side, "t": t, "ref_intervals": ri.tolist(), "ref_labels": rl,
                                                             "est_intervals": ei.tolist(), "est_labels": el})
+        # the estimate starts before the reference and one of its intervals straddles the reference's start: cutting that
+        # interval inside the reference's span (same label on both pieces) changes nothing
+        if it % 4 == 0:
+            r0 = rng.choice([1.0, 2.0])
+            xri = np.array([[r0, r0 + 1.0], [r0 + 1.0, r0 + 2.5]])
+            xrl = [rng.choice(["C:maj", "G:min", "A:7"]), rng.choice(["F:maj", "N", "D:min7"])]
+            xei = np.array([[r0 - 0.75, r0 + 0.5], [r0 + 0.5, r0 + 1.75], [r0 + 1.75, r0 + 2.5]])
+            xel = [xrl[0], rng.choice(["C:maj", "F:maj"]), xrl[1]]
+            cutp = r0 + rng.choice([0.125, 0.25, 0.375])
+            xei2 = np.vstack([[[xei[0, 0], cutp], [cutp, xei[0, 1]]], xei[1:]])
+            log.add("close", "chord.evaluate", call(c.evaluate, xri, xrl, xei, xel), call(c.evaluate, xri, xrl, xei2, [xel[0]] + xel),
+                    {"what": "split est", "t": cutp, "family": "interval straddling the reference start", "ref_intervals": xri.tolist(), "ref_labels": xrl,
+                     "est_intervals": xei.tolist(), "est_labels": xel})
         # frame-based segment scores under splits
         si, sl, ti, tl = gen.gen_segment_pair(rng, rng.choice(["random", "random", "duplicates", "disjoint"]))
         fs = rng.choice([0.25, 0.5, 1.0])
